@@ -217,7 +217,27 @@ class CFG:
         if hasattr(ast, "TryStar") and isinstance(s, ast.TryStar):
             raise AnalysisError("try* is not modelled")
         if hasattr(ast, "Match") and isinstance(s, ast.Match):
-            raise AnalysisError("match is not modelled")
+            # (what the normaliser could not lower to if/elif) the subject,
+            # then one test per case: kind "case", tag = the match_case,
+            # expr = its guard; the captures are definitions (dataflow)
+            subj = self._stmt_node("stmt", ast.copy_location(
+                ast.Expr(value=s.subject), s), s.subject, frontier, ctx)
+            frontier = [(subj, "next")]
+            out = []
+            for c in s.cases:
+                t = self._new("case", s, c.guard, tag=c)
+                self._link(frontier, t)
+                if c.guard is not None and self._may_raise(
+                        c.guard, "test", ctx):
+                    self._edge(t, ctx.exc(), "exc")
+                out += self._block(c.body, [(t, "true")], ctx)
+                frontier = [(t, "false")]
+                p_ = c.pattern
+                if c.guard is None and isinstance(p_, ast.MatchAs) and \
+                        p_.pattern is None:
+                    frontier = []       # irrefutable: nothing falls through
+                    break
+            return out + frontier
         if isinstance(s, (ast.Global,)):
             raise AnalysisError("global is not modelled")
         n = self._stmt_node("stmt", s, s, frontier, ctx)
